@@ -353,7 +353,9 @@ fn base_v1(now: u64) -> Tok {
             ("nbf".into(), J::Num(now - 10)), ("iat".into(), J::Num(now - 10)), ("jti".into(), s("jti-1")), ("pssid".into(), s(PSSID1))],
           hdr_seg: None, pay_seg: None, sig_seg: None, key: 0, sig_mut: SigMut::None, whole: None, label: "v1".into() }
 }
-const OFFS: [i64; 6] = [-3600, -120, -30, 30, 120, 3600];
+// the case loop runs verifier and router inside one wall-clock second (retried otherwise), so the
+// verifier's `now` is the recorded one exactly and the leeway edge (60 s) can be probed to the second
+const OFFS: [i64; 14] = [-3600, -120, -65, -61, -60, -59, -30, 30, 59, 60, 61, 65, 120, 3600];
 fn at(now: u64, off: i64) -> u64 { (now as i64 + off) as u64 }
 
 type Mutation = Box<dyn Fn(&mut Tok, u64)>;
@@ -431,7 +433,10 @@ fn mutations() -> Vec<(String, Mutation)> {
     for p in ["ef16640f0fa94360be74dbeec7ab4f9a", "urn:uuid:ef16640f-0fa9-4360-be74-dbeec7ab4f9a", "{ef16640f-0fa9-4360-be74-dbeec7ab4f9a}",
               "ef16640f-0fa9-4360-be74-dbeec7ab4f9", "EF16640F-0FA9-4360-BE74-DBEEC7AB4F9A", "", "AAAAAAAAAAAAAAAAAAAAAAA",
               "ABI-RWfomxLTpFZCZhQXQA", "ABI-RWfomxLTpFZCZhQXQAAA", "BBI-RWfomxLTpFZCZhQXQAA", "ABI-RWfomxLTpFZCZhQXQAA=", "ABI+RWfomxLTpFZCZhQXQAA",
-              "ABI-RWfomxLTpFZCZhQXQAB", "not a pssid"] {
+              "ABI-RWfomxLTpFZCZhQXQAB", "not a pssid",
+              "{ef16640f0fa94360be74dbeec7ab4f9a}", "URN:UUID:ef16640f-0fa9-4360-be74-dbeec7ab4f9a", "ef16640f0-fa9-4360-be74-dbeec7ab4f9a",
+              "ef16640f-0fa9-4360-be74-dbeec7ab4f9g", "{ef16640f-0fa9-4360-be74-dbeec7ab4f9a)", "urn:uuid:ef16640f0fa94360be74dbeec7ab4f9a1234",
+              "AP__-_-_-_-_-_-_-_-_-_8", "AQI-RWfomxLTpFZCZhQXQAA", "APz-RWfomxLTpFZCZhQXQAE", "ABI-RWfomxLTpFZCZhQXQA.", "A", "ABI-RWfomxLTpFZCZhQXQAAAAA"] {
         v.push(m(&format!("pssid={p}"), move |t, _| set(&mut t.claims, "pssid", s(p))));
     }
     // ---- signature
